@@ -245,6 +245,36 @@ func runC06(c c06Case) error {
 	default:
 		return fmt.Errorf("harness: unknown attr %q", c.Attr)
 	}
+	// (e) the value is still the value after it has been added: a setter that is used again (the
+	// same address / text / list for the next message) writes the same attribute, and what the
+	// caller passed in is untouched
+	setterBufs, trackSetterBufs = nil, true
+	st, _, _, _ := op.setter()
+	bufs := setterBufs
+	trackSetterBufs, setterBufs = false, nil
+	var snaps [][]byte
+	for _, bf := range bufs {
+		snaps = append(snaps, append([]byte(nil), bf...))
+	}
+	var firstRaw []byte
+	for round := 0; round < 2; round++ {
+		m2 := new(stun.Message)
+		m2.TransactionID = tid
+		m2.WriteHeader()
+		if aerr := st.AddTo(m2); aerr != nil {
+			return fmt.Errorf("use %d of the same %s value: AddTo returned %v", round+1, c.Attr, aerr)
+		}
+		for i, bf := range bufs {
+			if !bytes.Equal(bf, snaps[i]) {
+				return fmt.Errorf("adding the %s value modified the caller's value: %x became %x", c.Attr, snaps[i], bf)
+			}
+		}
+		if round == 0 {
+			firstRaw = append([]byte(nil), m2.Raw...)
+		} else if !bytes.Equal(firstRaw, m2.Raw) {
+			return fmt.Errorf("adding the same %s value a second time wrote different bytes: %x, first %x", c.Attr, m2.Raw[20:], firstRaw[20:])
+		}
+	}
 
 	return nil
 }
